@@ -107,6 +107,10 @@ def run(ctx):
                             W, V = field_of(b, "weight"), field_of(b, "vote")
                             fname, newv = list(vf.items())[0]
                             chosen = [c[1] for c in p.conds if c[0] == V and isinstance(c[1], str)]
+                            if not chosen:
+                                # the same choice spelled as a chain of `vote == Vote::X` tests
+                                pv_ = possible_variants(ctx, p, V, VOTE)
+                                chosen = sorted(pv_) if pv_ is not None and len(pv_) == 1 else []
                             n_ = nf(newv)
                             prev = ("field", vb, fname)
                             want_ = nf(("bin", "add", prev, W))      # compare normal forms, not the spelling of W
